@@ -20,7 +20,7 @@ def past_cfg(rng, **kw):
 
 class C02(Prop):
     id = 'C02'
-    rule_added = "10% of the cases are 'near twins': f1 o f2, the same formula with one constant moved by different amounts below 1e-6."
+    rule_added = "10% of the cases are 'near twins': f1 o f2, the same formula with one constant moved by different amounts below 1e-6. 12% under an interface-aware semantics with a random io assignment on both monitors."
     rule = ('random past-time STL formulas (Boolean, arithmetic, once/historically/since bounded and unbounded, '
             'prev/s_prev, rise/fall; depth<=5; 35% of cases with a sub-formula text deliberately duplicated) x random '
             'traces of 1..40 samples: a fresh online spec is fed sample by sample and update #i is compared with '
